@@ -11,7 +11,7 @@ CHECK = {
  'rule': 'per configuration (fan kind hwmon/file/cmd x pwmMap configured or not x minPwm+maxPwm configured or not; file/cmd fans also without any RPM source, whose complete stored state is the PWM map) BFS over operation sequences {start, fan reset, fan init, user adds/removes the pwmMap in the configuration file, fan reset of a second (never started) fan} to depth 3 (quick) / 5 (thorough); '
          'a start is the real path YAML -> loader -> validator -> InitializeObjects -> NewFanController -> Run in a virtual-time bubble up to the third regulation cycle. Observed: every PWM write between '
          'start and the first curve evaluation (descending run > 8 = sweep, ascending run > 8 = RPM-curve measurement). Oracle from a 3-line model of stored entries: stored (or configured) => no PWM write '
-         'before regulation; configured pwmMap => never swept and the regulated device value is the output of the configured map; minPwm+maxPwm configured => no measurement; reset clears, start/init store. distinct_nontrivial = distinct database states reached. The configuration also holds a never-started fan whose id differs from the fan under test only in letter case (listed before it).',
+         'before regulation; configured pwmMap => never swept and the regulated device value is the output of the configured map; minPwm+maxPwm configured => no measurement; reset clears, start/init store. distinct_nontrivial = distinct database states reached. The configuration also holds a never-started fan whose id differs from the fan under test only in letter case (listed before it). hwmon and file fans additionally: starts during which the k-th read (k=1..4) of the PWM file after the controller started fails once; a start that fan2go gives up on because of the failing read is not judged.',
  'assumptions': COMMON_ASSUME + ['gosensors stand-in serves the fake hwmon chip', 'each operation runs in one process here although it is a separate process in reality; all cross-operation state is in the database file'],
  'level_text': 'all operation sequences up to the depth bound with state deduplication on the real database content; every transition executes the real command / start-up code',
  'level_note': 'bounded depth; one fan per configuration; cmd fans limited to depth 2 in quick (each sweep spawns 512 processes)',
